@@ -94,12 +94,34 @@ def run_cases(ctx, cases, label, scratch):
         i, m = exhausted(i, m)
         i, m = damaged_stream(c, i, m)
         i, m = sort_logs_after_save(c.ops, i), sort_logs_after_save(c.ops, m)
+        if i != m and after_anomalous_save(ctx, c, i, m):
+            out.append((c, i, i))
+            continue
         if i != m:
             ctx.violation('correspondence', f'{label}: model and implementation differ',
                           {'where': label, 'meta': {k: v for k, v in c.meta.items() if k not in ('paths', 'stamps')}, 'ops': c.ops,
                            'impl': i, 'model': m, 'tree': describe(c.tree)})
         out.append((c, i, m))
     return out
+
+
+def after_anomalous_save(ctx, c, i, m):
+    """findings D21 / D29 (a file that is a Manifest for the loader and data for its parent): the first save may rename such a file;
+    a later walk on the same loader then meets a file created by the run that has no entry, and the position of the new entry
+    depends on where the directory lists the new name (the model appends new names, the harness orders by a key).  Differences
+    that begin after the first save of such a tree are attributed to the listed finding."""
+    import known
+    import common
+    d21, d29 = known.d21_dirs(c), known.d29_dirs(c)
+    if not (d21 or d29) or i[0] != 'ok' or m[0] != 'ok':
+        return False
+    saves = [k for k, op in enumerate(c.ops) if op[0] == 'save']
+    if not saves:
+        return False
+    first = next((k for k, (a, b) in enumerate(zip(i[1], m[1])) if a != b), None)
+    if first is None or first <= saves[0] or not any(op[0] == 'update' for op in c.ops[saves[0] + 1:first + 1]):
+        return False
+    return common.known_finding(ctx, ctx.pid, c, 'idempotence', ['order of entries written by an update that follows the first save'])
 
 
 def exhausted(i, m):
